@@ -249,6 +249,8 @@ def run(modname: str, tier: str, seed: int, workers: int) -> int:
     chunk_iter = _chunks(gen, chunk)
     exhausted = False
     nsub = 0
+    wall_budget = int(os.environ.get("VERIF_MAX_WALL", "1500" if tier == "quick" else "14400"))
+    over_budget = False
     redo: List[Any] = []          # worlds whose worker process died (pool broken): re-run one per subprocess
     pool_breaks = 0
 
@@ -288,6 +290,24 @@ def run(modname: str, tier: str, seed: int, workers: int) -> int:
                 if not pending:
                     break
                 done, _ = wait(list(pending), return_when=FIRST_COMPLETED, timeout=30)
+                if time.time() - t0 > wall_budget:
+                    # the run takes far longer than this tier ever does on a healthy tree (runaway slowdown): stop here
+                    stats.setdefault("caps", []).append(f"wall-clock budget of {wall_budget}s exceeded; exploration stopped")
+                    over_budget = True
+                    for proc in list(getattr(ex, "_processes", {}).values()):
+                        try:
+                            proc.kill()
+                        except Exception:
+                            pass
+                    for f in done:
+                        c = pending.pop(f)
+                        try:
+                            absorb(f.result())
+                        except Exception:
+                            pass
+                    pending.clear()
+                    exhausted = True
+                    break
                 if not done:
                     stalled += 30
                     if stalled >= CHUNK_TIMEOUT:
@@ -316,7 +336,7 @@ def run(modname: str, tier: str, seed: int, workers: int) -> int:
                             redo.extend(c)
                     pending.clear()
                     break
-        if broken:
+        if broken and not over_budget:
             pool_breaks += 1
             exhausted = False if not _is_exhausted(chunk_iter) else True
             _isolate(modname, redo, absorb)
@@ -441,6 +461,10 @@ def run(modname: str, tier: str, seed: int, workers: int) -> int:
     print(f"[{pid}/{tier}] states={agg['n']} transitions={ev['coverage']['transitions']} impl_runs={agg['execs']} "
           f"nontrivial={agg['nontrivial']} outcomes={len(agg['outcomes'])} signatures={len(sigs)} "
           f"new_violations={new_viol} wall={wall:.1f}s")
+    if over_budget and not new_viol:
+        print(f"HARNESS-ERROR property={pid} wall-clock budget exceeded without a reproducible violation "
+              f"(explored {agg['n']} worlds); nothing can be claimed")
+        return 2
     if vacuous and not new_viol:
         print(f"HARNESS-ERROR property={pid} vacuous exploration: {vacuous}")
         return 2
